@@ -213,6 +213,9 @@ class Sched:
         finally:
             if registered or self.me() in self.state:
                 self._finish()
+            # (a thread that has ended is not kept: the thread object of a oneway call refers to the method it ran, and through
+            # it to the object that served the call)
+            self.threads.pop(self.me(), None)
 
     def spawn(self, name, fn, trace=True):
         """start a controlled thread; returns once it is parked waiting for its first turn"""
